@@ -65,7 +65,8 @@ def _opts(draw, layout, nslab):
         else:
             o['files'] = list(range(nslab))
     o['fields'] = 'all' if o['passthrough'] else draw(st.sampled_from(['id', 'id', 'id', 'default', 'all', 'N']))
-    o['cleandir_arg'] = draw(st.sampled_from([False, False, True]))  # pass cleandir= explicitly instead of auto-detection
+    o['cleandir_arg'] = draw(st.sampled_from([False, False, True]))
+    o['dict_order'] = draw(st.sampled_from(['AB-first', 'AB-first', 'B-before-A', 'cols-first']))  # key order of the subsamples dict must not matter  # pass cleandir= explicitly instead of auto-detection
     return o
 
 
@@ -206,6 +207,8 @@ def _sub_arg(o, lc):
         s = {k: True for k in o['AB']}
         s['rvint'] = True
         s['packedpid'] = True
+        if o.get('dict_order') == 'B-before-A':
+            s = {k: s[k] for k in sorted(s, key=lambda k: {'B': 0, 'A': 1}.get(k, 2))}
         return s
     s = {k: True for k in o['AB']}
     cols = list(o['cols'])
@@ -217,6 +220,11 @@ def _sub_arg(o, lc):
             s[c] = True
         elif not o['rv_shorthand'] or c == 'pid':
             s[c] = False
+    order = o.get('dict_order', 'AB-first')
+    if order == 'B-before-A':
+        s = {k: s[k] for k in sorted(s, key=lambda k: {'B': 0, 'A': 1}.get(k, 2))}
+    elif order == 'cols-first':
+        s = {k: s[k] for k in sorted(s, key=lambda k: {'A': 2, 'B': 3}.get(k, 1))}
     return s
 
 
